@@ -151,7 +151,7 @@ Section C03.
       expired c (set_epoch e scene (epoch_of e scene + 1)) t = true ->
       relevant c scene (epoch_of e scene + 1) t = false.
     Proof.
-      unfold expired, relevant. intro H. apply N.ltb_lt in H. rewrite epoch_of_set in H.
+      rewrite expired_ltb. unfold relevant. intro H. apply N.ltb_lt in H. rewrite epoch_of_set in H.
       destruct (t_scene t =? scene) eqn:E; cbn [andb]; [|reflexivity].
       rewrite N.eqb_sym in E. rewrite E in H. apply N.leb_gt. unfold absdiff.
       destruct (epoch_of e scene + 1 <=? t_last t) eqn:E2; [apply N.leb_le in E2; lia|]. lia.
